@@ -175,8 +175,18 @@ theorem mkCell_of (r : Region) (cell : List Rat) (k : Nat → Nat) (hl : cell.le
       have : 0 ≤ listMin cell / 1000 := by positivity
       linarith
     simp [this]
+  have hcnt : allLt r.ndim (fun a => decide (1 ≤ (Mesh.roundHalfEven (r.edge a / cell.getD a 0)).toNat)) = true := by
+    rw [allLt_iff]
+    intro a ha
+    have hk0 : ((k a : Nat) : Rat) ≠ 0 := by exact_mod_cast (Nat.pos_iff_ne_zero.mp (hk a ha))
+    have he : r.edge a ≠ 0 := by unfold Region.edge; have := hlt a ha; intro h0; linarith
+    have hq : r.edge a / cell.getD a 0 = (k a : Rat) := by rw [hc a ha]; field_simp
+    rw [hq, roundHalfEven_nat]
+    have := hk a ha
+    simp only [Int.toNat_natCast, decide_eq_true_eq]
+    omega
   unfold Mesh.mkCell?
-  simp only [hl, ne_eq, not_true_eq_false, if_false, hany, Bool.false_eq_true, hcont, Bool.not_true, hdiv,
+  simp only [hl, ne_eq, not_true_eq_false, if_false, hany, Bool.false_eq_true, hcont, Bool.not_true, hdiv, hcnt,
     toLower_empty]
   have : Mesh.bcOk r.dims "" = true := by simp [Mesh.bcOk]
   simp only [this, Bool.not_true, Bool.false_eq_true, if_false]
